@@ -739,6 +739,10 @@ def adversarial(n, hexlike_too=False):
     add('b58', b'1A1zP1eP5QGefi2DMPTfTL5SLmv7DivfNa123456')
     add('bech', b'bc1qw508d6qejxtdg4y5r3zarvary0c5xw7kv8f3')
     add('utf8bad', b'\xc3\x28' * (n // 2) + b'a' * (n % 2))
+    add('ws_lead', b' \t' + bytes(range(1, n)))                                # white space at the edges of binary data
+    add('ws_trail', bytes(range(1, n - 1)) + b'\n ')
+    add('ws_both', b'\n' + b'\xa5' * (n - 2) + b'\r')
+    add('quote', b'"' + b'\x27' * (n - 2) + b'"')
     seen, res = set(), []
     for t, b in out:
         if b not in seen and (hexlike_too or not is_hexlike(b)):
